@@ -62,6 +62,79 @@ func freeAddr() string {
 	return a
 }
 
+// slowSrv makes the teardown of an HTTP server slow: its handler parks for 500 ms, and preStop()
+// puts one request in flight (and waits until the handler was entered) right before the scenario
+// calls Stop(), so that the server's graceful drain - hence Run() - outlasts the grace period by a
+// wide margin.  A Stop() that returned before that Run() did is then seen as such.
+type slowSrv struct {
+	addr    string
+	entered atomic.Int64
+}
+
+func (s *slowSrv) handler(w http.ResponseWriter, r *http.Request) {
+	s.entered.Add(1)
+	time.Sleep(500 * time.Millisecond)
+}
+
+func (s *slowSrv) config() (*httpserver.Config, error) {
+	rt, err := httpserver.NewRouteFromHandlerFunc("ok", "/", s.handler)
+	if err != nil {
+		return nil, err
+	}
+	return httpserver.NewConfig(s.addr, httpserver.Routes{*rt})
+}
+
+// preStop: one request in flight, if the server answers at all (it does not after a refused second
+// Run cycle or before the first Run - then there is nothing to slow down).
+func (s *slowSrv) preStop() {
+	before := s.entered.Load()
+	if !waitFor(time.Second, func() bool {
+		c, err := net.DialTimeout("tcp", s.addr, 50*time.Millisecond)
+		if err != nil {
+			return false
+		}
+		c.Close()
+		return true
+	}) {
+		return
+	}
+	go func() {
+		resp, err := http.Get("http://" + s.addr + "/")
+		if err == nil {
+			resp.Body.Close()
+		}
+	}()
+	waitFor(time.Second, func() bool { return s.entered.Load() > before })
+}
+
+type httpRS struct {
+	*httpserver.Runner
+	*slowSrv
+}
+
+type clusterRS struct {
+	*httpcluster.Runner
+	*slowSrv
+	pushed atomic.Bool
+}
+
+// the cluster gets one real httpserver child with the slow handler (pushed once, after Run started)
+func (c *clusterRS) preStop() {
+	if !c.pushed.Load() {
+		cfg, err := c.slowSrv.config()
+		if err == nil {
+			select {
+			case c.Runner.GetConfigSiphon() <- map[string]*httpserver.Config{"slow": cfg}:
+				c.pushed.Store(true)
+			case <-time.After(500 * time.Millisecond):
+			}
+		}
+	}
+	c.slowSrv.preStop()
+}
+
+type preStopper interface{ preStop() }
+
 func mkRunner(kind string) (rs, error) {
 	switch kind {
 	case "composite":
@@ -71,17 +144,22 @@ func mkRunner(kind string) (rs, error) {
 		}
 		return composite.NewRunner(cb, composite.WithLogHandler[*slowChild](quiet))
 	case "httpserver":
-		rt, err := httpserver.NewRouteFromHandlerFunc("ok", "/", func(w http.ResponseWriter, r *http.Request) {})
+		ss := &slowSrv{addr: freeAddr()}
+		cfg, err := ss.config()
 		if err != nil {
 			return nil, err
 		}
-		cfg, err := httpserver.NewConfig(freeAddr(), httpserver.Routes{*rt})
+		r, err := httpserver.NewRunner(httpserver.WithConfig(cfg), httpserver.WithLogHandler(quiet))
 		if err != nil {
 			return nil, err
 		}
-		return httpserver.NewRunner(httpserver.WithConfig(cfg), httpserver.WithLogHandler(quiet))
+		return &httpRS{Runner: r, slowSrv: ss}, nil
 	case "httpcluster":
-		return httpcluster.NewRunner(httpcluster.WithLogHandler(quiet))
+		r, err := httpcluster.NewRunner(httpcluster.WithLogHandler(quiet))
+		if err != nil {
+			return nil, err
+		}
+		return &clusterRS{Runner: r, slowSrv: &slowSrv{addr: freeAddr()}}, nil
 	}
 	return nil, fmt.Errorf("unknown kind %s", kind)
 }
@@ -117,6 +195,9 @@ func waitFor(d time.Duration, f func() bool) bool {
 
 func startStop(r rs) *atomic.Bool {
 	var ret atomic.Bool
+	if p, ok := r.(preStopper); ok {
+		p.preStop()
+	}
 	go func() {
 		r.Stop()
 		ret.Store(true)
